@@ -4,3 +4,5 @@ cd /verif
 for p in $(python3 -c "import json; print(' '.join(c['property_id'] for c in json.load(open('MANIFEST.json'))['checks']))"); do
   ./check $p --tier ${1:-quick} 2>&1 | grep -E "VIOLATION|KNOWN-FINDING|\[check"
 done
+# refuse to call the evidence clean when any file records a failing run (e.g. one left behind by a seeded-mutant run)
+(python3-vt tools/check_evidence.py 2>/dev/null || python3 tools/check_evidence.py)
